@@ -13,5 +13,5 @@ Extraction "model.ml"
   run_observe run_compare split_url split_netloc
   c10_pred c10_trans_pred c17_ctor_pred c17_set_pred c07_enc_pred c07_auto_pred
   c19_pred c09_pred kf_f7 c01_pred kf_f20 kf_f22 kf_f26 c03_pred kf_f14 kf_f15 kf_f17_with kf_empty_authority
-  c16_pred c16_reject_pred c16_nfkc_pred
+  c16_pred c16_reject_pred c16_nfkc_pred c16_reencode_pred
   c01_quote_pred c03_quote_pred c04_quote_pred c05_quote_pred canon_n c04_url_pred kf_f14b kf_f27 c19_oom_pred c11_pred kf_f7_base.
